@@ -778,7 +778,7 @@ func (s *session) closeLocked() error {
 	if !s.tryChangeStatus(statusActiveClosing, statusOk, statusPreparing) {
 		return nil
 	} // readDisconnected is being called
-	s.peer.sessHub.delete(s.ID())
+	s.peer.sessHub.deleteSession(s)
 	s.notifyClosed()
 	s.graceCtxWait()
 	s.graceCallCmdWaitGroup.Wait()
@@ -798,7 +798,7 @@ func (s *session) readDisconnected(oldConn net.Conn, err error) {
 		s.changeStatus(statusPassiveClosing)
 	}
 
-	s.peer.sessHub.delete(s.ID())
+	s.peer.sessHub.deleteSession(s)
 
 	var reason string
 	if err != nil && err != socket.ErrProactivelyCloseSocket {
@@ -1013,6 +1013,14 @@ func (sh *SessionHub) len() int {
 // delete deletes the *session for a id.
 func (sh *SessionHub) delete(id string) {
 	sh.sessions.Delete(id)
+}
+
+// deleteSession deletes sess from the hub, unless another session has taken over its id.
+func (sh *SessionHub) deleteSession(sess *session) {
+	id := sess.ID()
+	if cur, ok := sh.sessions.Load(id); ok && cur.(*session) == sess {
+		sh.sessions.Delete(id)
+	}
 }
 
 const (
